@@ -18,7 +18,8 @@ Interface
   system_of(case)      -> system name for 'named', 'triclinic' for everything else
   kwargs_of(case, form=None) -> keyword dict to hand to a constructor taking C11=..., per documented alternatives
   FORMS[system]        -> the documented alternative keyword sets of a system
-  strategies (cached, build once):  spd(), named(system=None), isotropic(), tensors(rotated=True, isotropic_too=True),
+  strategies (cached, build once):  spd(), named(system=None, variants=False), isotropic(variants=False),
+                          tensors(rotated=True, isotropic_too=True, variants=False),
                           rot_specs() -> [axis, angle_deg], strains(scale=0.05) -> nested 3x3 list
   rotate_case(case, rot) -> the 'rot' case;  labels_of(case) -> set of classification labels
   Reference algebra used here (Voigt maps, rotation, symmetry generators, isotropic moduli, VRH) is in
@@ -31,6 +32,18 @@ Typical use in another check (never hand numpy arrays to a case; the case is the
       ec = am.ElasticConstants(Cij=C6.copy())        or   am.ElasticConstants(**g.kwargs_of(case['T']))
   Every generated tensor is positive definite with cond <= ~1e3 and max|C| in [1, ~600] (isotropic near nu = 0.495: up to ~2e4; think GPa); an isotropic case
   ({'system': 'isotropic'}) is *exactly* isotropic, every other kind is anisotropic except by accident ('iso_mix' = 1.0).
+
+Variants (opt-in: tensors(variants=True), named(system, variants=True), isotropic(variants=True); the default strategies
+are unchanged, so checks that assume "numbers like GPa" keep their domain).  They are ordinary cases of the three kinds
+above that carry extra informational keys (read only by labels_of):
+  'scale': s      overall magnitude: every constant (spd: every eigenvalue) multiplied by s, 1e-6 <= s <= 1e6
+                  (log-uniform-ish plus unit-conversion factors such as 1 GPa = 0.00624 eV/A^3; exactly 1 in ~1/3, then
+                  the key is absent).  All that may be assumed about such a tensor is relative to max|C|.
+  'near_iso': d   weakly anisotropic: C = Ciso + d (C0 - Ciso), 1e-6 <= d <= 1e-2, Ciso the isotropic tensor
+                  (C11 = mean diagonal, C12 = 0.4 C11, C44 = 0.3 C11) the admissibility ladder shrinks toward; a generic
+                  SPD base is first rewritten as a 'named' triclinic case.  The anisotropy ratio differs from 1 by O(d).
+  'whole': True   every named constant is a whole number (so that a caller can pass Python/numpy integers)
+  pure helpers: scaled_case(case, s), near_isotropic(case, d), whole_case(case), scale_of(case)
 """
 import functools
 import math
@@ -210,7 +223,86 @@ def labels_of(case):
     elif case['kind'] == 'rot':
         b = case['base']
         labs.add('rot_of_' + (b['system'] if b['kind'] == 'named' else b['kind']))
+    if 'scale' in case:
+        sc = case['scale']
+        labs.add('scale_small' if sc < 1e-3 else 'scale_large' if sc > 1e3 else 'scale_mid')
+    if 'near_iso' in case:
+        labs.add('near_iso')
+    if case.get('whole'):
+        labs.add('whole')
     return labs
+
+
+# ------------------------------------------------------------------ variants (pure functions of a case)
+
+def scale_of(case):
+    return case.get('scale', 1.0)
+
+
+def scaled_case(case, s):
+    """the same material with every stiffness multiplied by s (Poisson's ratio is dimensionless)"""
+    if s == 1.0:
+        return case
+    out = dict(case)
+    kind = case['kind']
+    if kind == 'spd':
+        out['lam'] = [l * s for l in case['lam']]
+    elif kind == 'named':
+        out['C'] = {n: (v if n == 'nu' else v * s) for n, v in case['C'].items()}
+    else:
+        out['base'] = scaled_case(case['base'], s)
+    out['scale'] = s * case.get('scale', 1.0)
+    return out
+
+
+def _as_triclinic(case):
+    C = cij(case)
+    return {'kind': 'named', 'system': 'triclinic',
+            'C': {n: float(C[int(n[1]) - 1, int(n[2]) - 1]) for n in TRICLINIC_NAMES}}
+
+
+def _iso_of(k):
+    d = [k[n] for n in ('C11', 'C22', 'C33') if n in k]
+    c11 = sum(d) / len(d)
+    return {'C11': c11, 'C22': c11, 'C33': c11, 'C12': 0.4 * c11, 'C13': 0.4 * c11, 'C23': 0.4 * c11,
+            'C44': 0.3 * c11, 'C55': 0.3 * c11, 'C66': 0.3 * c11}
+
+
+def near_isotropic(case, d):
+    """C = Ciso + d (C - Ciso): a convex combination of two positive-definite tensors of the same crystal system in the
+    same setting (every placement table is linear in the constants), hence admissible; exactly isotropic cases are
+    returned unchanged"""
+    kind = case['kind']
+    if kind == 'rot':
+        out = dict(case)
+        out['base'] = near_isotropic(case['base'], d)
+        if 'near_iso' in out['base']:
+            out['near_iso'] = d
+        return out
+    if kind == 'spd':
+        case = _as_triclinic(case)
+    if case['system'] == 'isotropic':
+        return case
+    k = case['C']
+    iso = _iso_of(k)
+    out = dict(case)
+    out['C'] = {n: iso.get(n, 0.0) + d * (v - iso.get(n, 0.0)) for n, v in k.items()}
+    out['near_iso'] = d
+    return out
+
+
+def whole_case(case):
+    """named constants rounded to whole numbers when the rounded set is still admissible (else the case unchanged)"""
+    if case['kind'] != 'named' or case['system'] == 'isotropic':
+        return case
+    k = {n: float(round(v)) for n, v in case['C'].items()}
+    w = np.linalg.eigvalsh(place(case['system'], k))
+    if not w[0] >= 0.5 * MIN_EIG_RATIO * w[-1]:
+        return case
+    out = dict(case)
+    out['C'] = k
+    out['whole'] = True
+    return out
 
 
 # ------------------------------------------------------------------ strategies
@@ -319,20 +411,61 @@ def _named_system(system):
 _ANISO = tuple(s for s in SYSTEMS if s != 'isotropic')
 
 
+# unit-conversion factors between the pressure units atomman users meet (GPa <-> eV/A^3, GPa <-> Pa/bar/Mbar ...) and
+# the ends of the range
+_SCALE_SPECIAL = (0.00624150913, 160.21766208, 6.24150913e-6, 1e-6, 1e-5, 1e-4, 1e-3, 1e3, 1e5, 1e6, 0.01, 100.0)
+
+
+def _draw_scale(rng):
+    """1 in 1/3, a special factor in 1/9, the small end 10**u, u in [-6,-4.5], in 1/9 (there absolute tolerances
+    inside the code under test start to matter: max|C| <~ 1e-3), else 10**u with u uniform in [-6, 6] (two decimals)"""
+    w = int(rng.integers(0, 9))
+    if w <= 2:
+        return 1.0
+    if w == 3:
+        return _SCALE_SPECIAL[int(rng.integers(0, len(_SCALE_SPECIAL)))]
+    if w == 4:
+        return 10.0 ** (int(rng.integers(-600, -449)) / 100.0)
+    return 10.0 ** (int(rng.integers(-600, 601)) / 100.0)
+
+
+def _variant(draw, T):
+    """near-isotropic in 1/3 (d = 10**u, u uniform in [-6,-2]), whole-number constants in 1/6 (named cases only), scaled in 2/3.  The
+    choices come from a drawn seed expanded here (Hypothesis' own small integers cluster at their minimal values)"""
+    rng = np.random.default_rng(draw(_seed))
+    v = int(rng.integers(0, 12))
+    if v <= 3:
+        T = near_isotropic(T, 10.0 ** (int(rng.integers(-600, -199)) / 100.0))
+    elif v <= 5:
+        T = whole_case(T)
+        if T.get('whole'):
+            return T
+    return scaled_case(T, _draw_scale(rng))
+
+
 @functools.lru_cache(maxsize=None)
-def named(system=None):
+def named(system=None, variants=False):
     """admissible constant set of the given crystal system (None: any of the seven crystal systems, no isotropic)"""
-    if system is not None:
+    if system is not None and not variants:
         return _named_system(system)
 
     @st.composite
     def _any(draw):
-        return draw(_named_system(draw(_anysys)))
+        T = draw(_named_system(system if system is not None else draw(_anysys)))
+        return _variant(draw, T) if variants else T
     return _any()
 
 
-def isotropic():
-    return _named_system('isotropic')
+@functools.lru_cache(maxsize=None)
+def isotropic(variants=False):
+    if not variants:
+        return _named_system('isotropic')
+
+    @st.composite
+    def _iso(draw):
+        T = draw(_named_system('isotropic'))
+        return scaled_case(T, _draw_scale(np.random.default_rng(draw(_seed))))
+    return _iso()
 
 
 _axis = st.lists(st.integers(-5, 5), min_size=3, max_size=3).filter(any)
@@ -351,9 +484,18 @@ _which = st.integers(0, 11)
 
 
 @functools.lru_cache(maxsize=None)
-def tensors(rotated=True, isotropic_too=True):
+def tensors(rotated=True, isotropic_too=True, variants=False):
     """mixture: generic SPD (1/4), each crystal system in its standard setting (5/12), isotropic (1/12) and
-    (rotated=True) a crystal-system / SPD tensor expressed in rotated axes (1/4)"""
+    (rotated=True) a crystal-system / SPD tensor expressed in rotated axes (1/4); variants=True: additionally the
+    magnitude / near-isotropy / whole-number variants described in the module docstring"""
+    if variants:
+        plain = tensors(rotated, isotropic_too)
+
+        @st.composite
+        def _v(draw):
+            return _variant(draw, draw(plain))
+        return _v()
+
     @st.composite
     def _t(draw):
         w = draw(_which)
